@@ -123,3 +123,26 @@ Definition run_percent_hist (pagesize : Z) (ex : list bytes) (ms : list mapping)
        JL (map (jv_outcome jv_ratio) (run_hist mi mfi None kernel0 ops));
        (if forallb wf_kernel0 ms && wf_statm r && hist_ok ops && (0 <? kernel0)
         then JL (map (jv_outcome jv_ratio) (spec_hist (spec_full pagesize r ms) None kernel0 ops)) else jnone) ].
+
+(* ---- live kernel: a snapshot of a real process, parsed by the harness into records; the
+   printed files must be the real bytes (checked by the harness), then model and psutil run
+   on them with both sources of memory_full_info and both views of memory_maps *)
+Definition run_live (pagesize : Z) (ex : list bytes) (rl : rollup) (ms : list mapping) (r : statm) : jv :=
+  let smaps := k_smaps ms in
+  let probe := probe_of ex [] in
+  let res := memory_maps Alive probe (FContent smaps) in
+  let wf := forallb (wf_kernel probe) ms && wf_statm r in
+  JL [ jpack smaps; jpack (k_rollup rl); JB (k_statm r);
+       (* model *)
+       JL [ jv_outcome jv_zs (memory_full_info Alive pagesize true (FContent (k_rollup rl)) (FContent smaps) (FContent (k_statm r)));
+            jv_outcome jv_zs (memory_full_info Alive pagesize false FENOENT (FContent smaps) (FContent (k_statm r)));
+            jv_outcome jv_rows res; jv_outcome jv_grouped (omap group_rows res) ];
+       (* spec: None unless the snapshot is inside the domain of the theorems *)
+       (if wf && wf_rollup rl && (consistent rl ms || rounded rl ms) && uniform_figs ms
+        then JL [ JC "Val" [jv_zs (if consistent rl ms then spec_full pagesize r ms else spec_full_ru pagesize r ms rl)];
+                  JC "Val" [jv_zs (spec_full pagesize r ms)];
+                  JC "Val" [jv_rows (map spec_row ms)];
+                  JC "Val" [jv_grouped (spec_grouped (map spec_row ms))] ]
+        else jnone);
+       (* which hypotheses hold, for the harness's diagnosis *)
+       JL [ jbool wf; jbool (wf_rollup rl); jbool (consistent rl ms); jbool (rounded rl ms); jbool (uniform_figs ms) ] ].
